@@ -306,7 +306,7 @@ theorem finish_inv {s : St} (t : Name) (ok : Bool) (res : Option Res) (h : Inv s
     cases hs : saveSuccess s.checker (s.defs t).deps (s.rcd t) s.fs (newValues (s.defs t) s.resOf) res with
     | ok r => exact save_commit_inv t (s.rcd t) r _ _ res h (h.st t) hs
     | missing => exact erase_inv t h
-    | crash => exact crashed_inv h
+    | crash => exact erase_inv t h
 
 theorem runTask_inv {s : St} (t : Name) (ok always : Bool) (ws : List (Path × Nat × Nat)) (res : Option Res)
     (h : Inv s) : Inv (runTask true s t ok always ws res) := by
